@@ -115,6 +115,25 @@ def us(genome, inc):
     return ":underscore-contig-included" if any("_" in n for n in inc) else ""
 
 
+def merged_q(kept, genome, inc):
+    """signature qualifier for merged(d>0), which runs through the per-chromosome stream"""
+    if not kept:
+        return ":no-entries"
+    if any("_" in c for c, _, _ in kept):
+        return ":entries-on-underscore-contig"
+    if any(all(c != n for c, _, _ in kept) for n in inc if "_" not in n):
+        return ":chromosome-without-entries"
+    return ""
+
+
+def seq_q(kept):
+    if not kept:
+        return ":no-entries"
+    if all(e - s == 1 for _, s, e in kept):
+        return ":all-intervals-length-1"
+    return ""
+
+
 def adjacency(kept, genome_inc, d):
     """do two intervals on different chromosomes come within distance d in concatenated coordinates?"""
     off = dict(zip([n for n, _ in genome_inc], R.offsets([s for _, s in genome_inc])))
@@ -288,7 +307,7 @@ def chk_sets(col, case):
         for d in case.get("distances", (0, 1)):
             exp = [(n, s, e) for n in inc for s, e in R.merge(per[n], d)]
             col.case({"c": "merged", "d": d, **case}, contract="merged")
-            sig = "merged:d=0" if d == 0 else "merged:d>0" + u
+            sig = "merged:d=0" if d == 0 else "merged:d>0" + merged_q(kept, genome, inc)
             got = col.guarded(lambda: ivs(gi.merged(d)), sig, case)
             if got is not None:
                 col.check(got == exp, sig + ":wrong-per-chromosome-result", case, "d=%d got %r expected %r" % (d, got, exp))
@@ -363,7 +382,7 @@ def chk_sets(col, case):
         sq = col.guarded(lambda: GenomicSequence.from_dict(seqs), "GenomicSequence.from_dict", case)
         if sq is not None:
             col.case({"c": "seq_stranded", **case}, contract="GenomicSequence[stranded intervals]")
-            got = col.guarded(lambda: [str(x) for x in sq[gs].tolist()], "GenomicSequence[intervals]:stranded", case)
+            got = col.guarded(lambda: [str(x) for x in sq[gs].tolist()], "GenomicSequence[intervals]:stranded" + seq_q(kept), case)
             if got is not None:
                 exp = [seqs[c][s:e] if st == "+" else R.revcomp(seqs[c][s:e]) for (c, s, e), st in zip(kept, kept_strands)]
                 col.check([x.upper() for x in got] == exp, "GenomicSequence[intervals]:stranded:wrong-sequence", case, "got %r expected %r" % (got, exp))
@@ -547,16 +566,28 @@ def chk_loc(col, case):
         got = col.guarded(run_map, "map_locations", case)
         if got is None:
             continue
-        required, allowed = [], []
+        off = dict(zip(inc, R.offsets([sz for _, sz in genome_inc])))
+        required, allowed, cross = [], [], []
         for j, (ic, s, e) in enumerate(intervals):
             for c, p in sl:
                 if c == ic and s <= p < e:
                     required.append((j, p - s))
                 if c == ic and s <= p <= e:
                     allowed.append((j, p - s))
-        ok = all(x in got for x in required) and all(x in allowed for x in got) and len(set(got)) == len(got)
-        col.check(ok, "map_locations:location-mapped-across-chromosome-boundary" if all(x in got for x in required) else "map_locations:missing-pair",
-                  case, "intervals %r locations %r got %r required %r" % (intervals, sl, got, required))
+                if c != ic and off[c] + p == off[ic] + e:
+                    cross.append((j, p - s))
+        keys = set(got) | set(required)
+        missing = [x for x in keys if got.count(x) < required.count(x)]
+        extra = [x for x in keys if got.count(x) > allowed.count(x)]
+        col.check(not missing, "map_locations:missing-pair", case,
+                  "intervals %r locations %r got %r missing %r" % (intervals, sl, got, missing))
+        if extra and all(got.count(x) <= allowed.count(x) + cross.count(x) for x in extra):
+            col.fail("map_locations:location-mapped-to-interval-ending-at-previous-chromosome-end", case,
+                     "intervals %r locations %r got (interval number, offset) %r; allowed %r; pairs only explained by a location and an "
+                     "interval on two different chromosomes %r" % (intervals, sl, got, allowed, extra))
+        elif extra:
+            col.fail("map_locations:location-mapped-to-interval-not-containing-it", case,
+                     "intervals %r locations %r got %r extra %r" % (intervals, sl, got, extra))
 
 
 def interval_menus(genome_inc):
@@ -643,7 +674,10 @@ def chk_spill(col, case):
     genome, filt, inc, genome_inc, sizes = parse(case)
     entries = [(c, int(s), int(e)) for c, s, e in case["entries"]]
     bad_chrom = case["bad"]
+    if bad_chrom not in inc:
+        return
     per = {n: [(s, e) for c, s, e in entries if c == n] for n in inc}
+    kept = [e for e in entries if e[0] in inc]
     g = make_genome(genome, filt)
     ctx = g.get_genome_context()
     values = vals_of("distinct", genome_inc)
@@ -663,7 +697,7 @@ def chk_spill(col, case):
         got = rows(ga[g.get_intervals(make_intervals(entries))])
     except Exception:
         return
-    for (c, s, e), r in zip(entries, got):
+    for (c, s, e), r in zip(kept, got):
         own = set(values[c])
         col.check(all(v in own for v in r), "GenomicArray[intervals]:values-of-neighbouring-chromosome-returned", case,
                   "interval %r -> %r, chromosome has %r" % ((c, s, e), r, values[c]))
@@ -709,13 +743,13 @@ def chk_fasta(col, case):
         try:
             if gs is not None:
                 col.case({"c": "seq_stranded", **case}, contract="GenomicSequence(fasta)[stranded intervals]")
-                got = col.guarded(lambda: [str(x).upper() for x in sq[gs].tolist()], "GenomicSequence(fasta)[intervals]:stranded", case)
+                got = col.guarded(lambda: [str(x).upper() for x in sq[gs].tolist()], "GenomicSequence(fasta)[intervals]:stranded" + seq_q([e for e, _ in kept]), case)
                 if got is not None:
                     exp = [seqs[c][s:e] if st == "+" else R.revcomp(seqs[c][s:e]) for (c, s, e), st in kept]
                     col.check(got == exp, "GenomicSequence(fasta)[intervals]:stranded:wrong-sequence", case, "got %r expected %r" % (got, exp))
             if gu is not None:
                 col.case({"c": "seq_unstranded", **case}, contract="GenomicSequence(fasta)[intervals]")
-                got = col.guarded(lambda: [str(x).upper() for x in sq[gu].tolist()], "GenomicSequence(fasta)[intervals]:unstranded", case)
+                got = col.guarded(lambda: [str(x).upper() for x in sq[gu].tolist()], "GenomicSequence(fasta)[intervals]:unstranded" + seq_q([e for e, _ in kept]), case)
                 if got is not None:
                     exp = [seqs[c][s:e] for (c, s, e), st in kept]
                     col.check(got == exp, "GenomicSequence(fasta)[intervals]:unstranded:wrong-sequence", case, "got %r expected %r" % (got, exp))
@@ -774,7 +808,7 @@ def strand_patterns(n, tier):
 
 
 def genomes_full(S):
-    """(genome, filter) for every size vector, 1..2 chromosomes; names: one a prefix of the other, both orders"""
+    """(genome, filter) for every size vector, 1..2 chromosomes; names: one a prefix of the other"""
     for s in range(1, S + 1):
         yield [("chr1", s)], "keep"
     for s1, s2 in itertools.product(range(1, S + 1), repeat=2):
@@ -782,30 +816,40 @@ def genomes_full(S):
 
 
 def genomes_multi(S, tier):
-    """3..4 chromosomes: prefix names in both orders, '_' names ignored (default filter) or kept"""
-    sizes3 = list(itertools.product(range(1, S + 1), repeat=3)) if tier == "thorough" else \
-        [(1, 1, 1), (2, 1, 3), (3, 2, 1), (1, 3, 2), (2, 2, 2), (3, 3, 3)]
+    """3..4 chromosomes: prefix names in both orders, '_' names ignored (default filter of from_file) or kept"""
+    if tier == "thorough":
+        sizes3 = list(itertools.product((1, 2, S), repeat=3))
+        sizes4 = [(2, 3, 1, 2), (1, 2, 3, 1), (S, 1, 2, S), (1, 1, 1, 1), (2, S, 2, 1)]
+        other = sizes4[:3]
+    else:
+        sizes3 = [(1, 1, 1), (2, 1, 3), (3, 2, 1), (2, 2, 2)]
+        sizes4 = [(2, 3, 1, 2), (1, 2, 3, 1)]
+        other = sizes4[:1]
     for sz in sizes3:
         yield [("chr10", sz[0]), ("chr1", sz[1]), ("chr2", sz[2])], "keep"
-    sizes4 = [(2, 3, 1, 2), (1, 2, 3, 1), (3, 1, 2, 3)] if tier == "quick" else \
-        [(2, 3, 1, 2), (1, 2, 3, 1), (3, 1, 2, 3), (S, S, S, S), (1, 1, 1, 1), (S, 1, S, 1), (2, S, 2, 1)]
     for sz in sizes4:
         for filt in ("ign", "keep"):
             yield [("chr1", sz[0]), ("chr1_alt", sz[1]), ("chr10", sz[2]), ("chr2", sz[3])], filt
-    for sz in sizes4[:2 if tier == "quick" else 4]:
+    for sz in other:
         yield [("chrUn_x", sz[0]), ("chr2", sz[1]), ("chr2_r", sz[2]), ("chr21", sz[3])], "ign"
         yield [("2", sz[0]), ("21", sz[1]), ("X", sz[2]), ("212", sz[3])], "keep"
 
 
+def small_menu(s):
+    m = [[], [(0, s)], [(0, 1), (s - 1, s)]] if s > 1 else [[], [(0, 1)]]
+    return m
+
+
 def gen_cases(tier):
     S = 3 if tier == "quick" else 4
+    thorough = tier == "thorough"
     # --- offset: every genome
     seen = []
     for genome, filt in itertools.chain(genomes_full(S), genomes_multi(S, tier)):
         yield {"k": "offset", "genome": genome, "filter": filt}
         seen.append((genome, filt))
 
-    # --- elem / loc / array: all entries of a genome at once
+    # --- elem / loc / array / spill: all entries of a genome at once
     for genome, filt in seen:
         entries = [(n, a, b) for n, s in genome for a, b in all_intervals(s)]
         for st in strand_patterns(len(entries), tier):
@@ -819,15 +863,18 @@ def gen_cases(tier):
             yield {"k": "loc", "genome": genome, "filter": filt, "locs": [l for l in locs if l[0] != genome[skip][0]], **common}
         yield {"k": "loc", "genome": genome, "filter": filt, "locs": [(n, s - 1) for n, s in genome], **common}
         yield {"k": "loc", "genome": genome, "filter": filt, "locs": [(n, 0) for n, s in genome], **common}
-        if len(genome) <= 2 or tier == "thorough":
+        if len(genome) <= 2 or thorough:
             for n, p in locs:
                 yield {"k": "loc", "genome": genome, "filter": filt, "locs": [(n, p)], **common}
         for pattern in ("distinct", "const", "edge"):
             yield {"k": "array", "genome": genome, "filter": filt, "values": pattern}
             for n, _ in genome:
                 yield {"k": "array", "genome": genome, "filter": filt, "values": pattern, "zero": [n]}
-        # spill: one interval leaves chromosome i on the right, the others carry boundary intervals
+        # spill: one interval leaves chromosome i on the right, its neighbours carry boundary intervals
+        inc = R.included_names(genome, filt)
         for i, (n, s) in enumerate(genome):
+            if n not in inc:
+                continue
             for bad in ((s - 1, s + 1), (0, s + 1), (s, s + 1)):
                 entries = []
                 for j, (m, t) in enumerate(genome):
@@ -837,35 +884,56 @@ def gen_cases(tier):
                         entries.append((m, t - 1, t))
                 yield {"k": "spill", "genome": genome, "filter": filt, "entries": entries, "bad": n}
 
-    # --- sets, exhaustive: 1..2 chromosomes, every subset of <= K intervals per chromosome
-    for genome, filt in genomes_full(S):
-        K = 3 if len(genome) == 1 else 2
-        menus = [list(subsets_upto(all_intervals(s), K)) for _, s in genome]
+    # --- sets, exhaustive: 1..2 chromosomes, every subset of <= K intervals per chromosome.
+    #     quick: sizes 1..2 with <=2 intervals, sizes 1..3 with <=1 interval, sizes 1..3 boundary menus
+    def two(genome, menus, extra=None):
         for choice in itertools.product(*menus):
             entries = [(genome[i][0], a, b) for i, ch in enumerate(choice) for a, b in ch]
-            for k, st in enumerate(strand_patterns(len(entries), tier)):
-                yield {"k": "sets", "genome": genome, "filter": filt, "entries": entries, "strands": st,
-                       "parts": "US" if k == 0 else "S", "all_perms": tier == "thorough"}
+            for k, st in enumerate(strand_patterns(len(entries), "quick")):
+                c = {"k": "sets", "genome": genome, "filter": "keep", "entries": entries, "strands": st,
+                     "parts": "US" if k == 0 else "S", "all_perms": thorough and len(entries) <= 3}
+                if extra:
+                    c.update(extra)
+                yield c
+    done = set()
+    for genome, filt in genomes_full(S):
+        plans = []
+        if len(genome) == 1:
+            plans.append(3)
+        elif thorough:
+            plans.append(2)
+        else:
+            plans.append(2 if max(s for _, s in genome) <= 2 else 1)
+        for K in plans:
+            yield from two(genome, [list(subsets_upto(all_intervals(s), K)) for _, s in genome])
+        if len(genome) == 2 and not thorough:
+            for c in two(genome, [boundary_menu(s) for _, s in genome]):
+                key = (str(c["genome"]), str(c["entries"]), c["strands"])
+                if key not in done and (len(c["entries"]) > 2 or max(s for _, s in genome) > 2):
+                    done.add(key)
+                    yield c
     # duplicates and nested intervals on both sides of one boundary
     for s1, s2 in itertools.product(range(1, S + 1), repeat=2):
         genome = [("chr1", s1), ("chr10", s2)]
         e = [("chr1", 0, s1), ("chr1", s1 - 1, s1), ("chr1", s1 - 1, s1), ("chr10", 0, 1), ("chr10", 0, 1), ("chr10", 0, s2)]
         yield {"k": "sets", "genome": genome, "filter": "keep", "entries": e, "strands": "+-+-+-", "parts": "US", "distances": [0, 1, 2]}
 
-    # --- sets, 3..4 chromosomes: boundary menu per chromosome (first base, last base, whole, both ends, nothing)
+    # --- sets, 3..4 chromosomes: boundary menu per chromosome (first base, last base, whole, both ends, nothing);
+    #     quick uses {nothing, whole, both ends} for 4 chromosomes
     for genome, filt in genomes_multi(S, tier):
-        menus = [boundary_menu(s) for _, s in genome]
-        for choice in itertools.product(*menus):
+        full = thorough or len(genome) == 3
+        menus = [boundary_menu(s) if full else small_menu(s) for _, s in genome]
+        for i, choice in enumerate(itertools.product(*menus)):
             entries = [(genome[i][0], a, b) for i, ch in enumerate(choice) for a, b in ch]
-            for k, st in enumerate(strand_patterns(len(entries), "quick")):
-                yield {"k": "sets", "genome": genome, "filter": filt, "entries": entries, "strands": st,
-                       "parts": "US" if k == 0 else "S", "values": "edge" if k else "distinct"}
+            st = strand_patterns(len(entries), "quick")[i % 2 if len(entries) else 0]
+            yield {"k": "sets", "genome": genome, "filter": filt, "entries": entries, "strands": st,
+                   "parts": "US", "values": ("distinct", "edge", "const")[i % 3], "distances": [0, 1, 2] if i % 4 == 0 else [0, 1]}
 
     # --- fasta-backed sequence, default filter of Genome.from_file
     fasta_genomes = [([("chr1", 3), ("chr10", 2)], "ign"),
                      ([("chr1", 2), ("chr1_alt", 3), ("chr10", 1), ("chr2", 3)], "ign"),
                      ([("chr10", 3), ("chr1", 1), ("chr2", 2)], "ign")]
-    if tier == "thorough":
+    if thorough:
         fasta_genomes += [([("chr1", S), ("chr10", S), ("chr2", S)], "ign"), ([("chrUn_x", 2), ("chr2", S), ("chr2_r", 1), ("chr21", 2)], "ign")]
     for genome, filt in fasta_genomes:
         every = [(n, a, b) for n, s in genome for a, b in all_intervals(s)]
